@@ -16,9 +16,15 @@ func rulesC07(c *Ctx) {
 	c07Race(c)
 	c07IsFailure(c)
 	c07ErrOwner(c)
-	execStateMethods(c, map[string]bool{"Cancel": true, "CopyForCancellable": true})
+	// the limit applies afresh to each attempt under a retry: the execution's per-attempt protocol
+	execStateMethods(c, nil)
+	c.Rule("per-attempt")
+	retryLoop(c, map[string]bool{"recheck": true, "returns": true})
 	ruleFailureResult(c)
 	c01PostExecute(c)
+	c.Rule("fresh-executor")
+	c01Self(c)
+	buildCopiesConfig(c)
 }
 
 func c07Race(c *Ctx) {
@@ -306,7 +312,10 @@ func c07ErrOwner(c *Ctx) {
 
 func rulesC09(c *Ctx) {
 	c09Loop(c)
-	execStateMethods(c, map[string]bool{"Cancel": true, "CopyForCancellable": true, "CopyForHedge": true})
+	execStateMethods(c, nil)
+	c.Rule("fresh-executor")
+	c01Self(c)
+	buildCopiesConfig(c)
 	c.Rule("cancel-conditions")
 	c12Registrars(c)
 	c12AnyOf(c)
